@@ -961,12 +961,29 @@ pixman_image_fill_boxes (pixman_op_t           op,
 
     for (i = 0; i < n_boxes; ++i)
     {
-        const pixman_box32_t *box = &(boxes[i]);
+        pixman_box32_t box = boxes[i];
+
+        /* A solid source looks the same everywhere, so only the part of the
+         * box inside the destination needs compositing.  Without this a box
+         * reaching more than 32767 pixels beyond its origin is dropped by the
+         * 16 bit source extent test, and x2 - x1 can overflow.
+         */
+        if (box.x1 < 0)
+            box.x1 = 0;
+        if (box.y1 < 0)
+            box.y1 = 0;
+        if (box.x2 > dest->bits.width)
+            box.x2 = dest->bits.width;
+        if (box.y2 > dest->bits.height)
+            box.y2 = dest->bits.height;
+
+        if (box.x1 >= box.x2 || box.y1 >= box.y2)
+            continue;
 
         pixman_image_composite32 (op, solid, NULL, dest,
                                   0, 0, 0, 0,
-                                  box->x1, box->y1,
-                                  box->x2 - box->x1, box->y2 - box->y1);
+                                  box.x1, box.y1,
+                                  box.x2 - box.x1, box.y2 - box.y1);
     }
 
     pixman_image_unref (solid);
